@@ -105,6 +105,25 @@ def probe_fragments(inp: Dict[str, Any]) -> Dict[str, Any]:
     if d > 1e-8:
         bad.append(f"finite cutoff 6 A < separation 12 A: E_AB - E_A - E_B = {d:.3e} (pairs beyond the cutoff not ignored)")
         kinds.add("cutoff_finite")
+    # the cutoff is a SPHERE: a fragment placed along the body diagonal at a distance between c and sqrt(3) c (every Cartesian component of every
+    # inter-fragment vector below c, every distance above c) is still beyond it
+    c_ = 9.0
+    za2, xa2 = esh.geom(a)
+    zb2, xb2 = esh.geom(b)
+    xa2 = xa2 - xa2.mean(0)
+    xb2 = xb2 - xb2.mean(0) + np.array([1.0, 1.0, 1.0]) / np.sqrt(3.0) * 13.5
+    zz = list(za2) + list(zb2)
+    xx = np.vstack([xa2, xb2])
+    order = sorted(range(len(zz)), key=lambda i: -zz[i])
+    dmin = min(np.linalg.norm(p_ - q_) for p_ in xa2 for q_ in xb2)
+    if dmin > c_:
+        spd = dict(sp, pair_outer_cutoff=c_)
+        e_ab = float(_run([zz[i] for i in order], xx[order], spd)["Etot"][0])
+        e_a = float(_run(za2, xa2, spd)["Etot"][0])
+        e_b = float(_run(zb2, xb2, spd)["Etot"][0])
+        if abs(e_ab - e_a - e_b) > 1e-8:
+            bad.append(f"cutoff {c_} A, fragment on the body diagonal with all inter-fragment distances >= {dmin:.2f} A: E_AB - E_A - E_B = {e_ab - e_a - e_b:.3e} (pairs beyond the cutoff kept)")
+            kinds.add("cutoff_sphere")
     spc2 = dict(sp, pair_outer_cutoff=40.0)
     d2 = abs(float(_run(z, x, spc2)["Etot"][0] - _run(z, x, sp)["Etot"][0]))
     if d2 > 1e-9:
